@@ -488,7 +488,7 @@ class C03(Prop):
                 "  | _ => false end.\n"
                 "Definition rows_ok (sizes : list nat) (rows : list (nat * (nat * nat))) : bool :=\n"
                 "  forallb (fun rki => loc_ok sizes (fst rki) (fst (snd rki)) (snd (snd rki))) rows.\n")
-    n_cases = (16, 96)
+    n_cases = (20, 116)
     design_ref = "DESIGN.md §5 C03"
     technique = ("Coq proof (corollary of the C01 composition theorem over stacked equation trees) "
                  "+ census of the real operator trees + directional finite-difference oracle")
@@ -523,12 +523,14 @@ class C03(Prop):
     rule = ("model family x {0,1,2} fractures x {Cartesian, simplex} x {2-D, 3-D} on a coarse grid with "
             "non-trivial material constants (compressible fluid etc.); states alternate between "
             "random (initial state + uniform perturbation) and structured (patterned contact "
-            "traction and interface displacement); 3 random directions per state; quick: 8 "
-            "configurations incl. all five families and one 3-D; thorough: 24 configurations")
+            "traction and interface displacement); 3 random directions per state; quick: 10 "
+            "configurations incl. all five families, a 3-D one-fracture model and the 3-D "
+            "three-fracture models (intersection lines and a 0-d point) for poromechanics and "
+            "thermoporomechanics; thorough: 29 configurations")
     trusted = ["census classifier (harness) maps porepy operator classes to the node kinds of the "
                "C01 expression language",
-               "finite-difference oracle tolerances (1e-5 relative per row against the row's "
-               "magnitude of contributions)"]
+               "finite-difference oracle tolerances (1e-6 relative per row against the row's own "
+               "magnitude of contributions sum_j |J_ij v_j|, not the global maximum)"]
     assumptions = ["discretisation matrices held fixed (constants of the trees)",
                    "states inside the smooth region of the constitutive laws"]
 
@@ -549,7 +551,9 @@ class C03(Prop):
             configs = [("SinglePhaseFlow", 0, True, 2), ("SinglePhaseFlow", 1, True, 2),
                        ("SinglePhaseFlow", 1, False, 2), ("MassAndEnergyBalance", 1, True, 2),
                        ("MomentumBalance", 1, True, 2), ("MomentumBalance", 1, True, 3),
-                       ("Poromechanics", 2, True, 2), ("Thermoporomechanics", 1, True, 2)]
+                       ("Poromechanics", 2, True, 2), ("Thermoporomechanics", 1, True, 2),
+                       # three mutually intersecting fractures in 3-D: lines and a 0-d point
+                       ("Poromechanics", 3, True, 3), ("Thermoporomechanics", 3, True, 3)]
         else:
             configs = []
             for fam in FAMILIES:
@@ -557,7 +561,10 @@ class C03(Prop):
                     configs.append((fam, nf, True, 2))
                 configs.append((fam, 1, False, 2))
             configs += [("MomentumBalance", 1, True, 3), ("Poromechanics", 1, True, 3),
-                        ("Thermoporomechanics", 2, True, 3), ("SinglePhaseFlow", 2, True, 3)]
+                        ("Thermoporomechanics", 2, True, 3), ("SinglePhaseFlow", 2, True, 3),
+                        ("Poromechanics", 3, True, 3), ("Thermoporomechanics", 3, True, 3),
+                        ("MassAndEnergyBalance", 3, True, 3), ("MomentumBalance", 3, True, 3),
+                        ("Poromechanics", 3, False, 3)]
         i = 0
         while i < n:
             fam, nf, cart, dim = configs[(i // 2) % len(configs)]
@@ -631,7 +638,10 @@ class C03(Prop):
                 # rows on which the difference quotients agree with each other (smooth)
                 consistent = np.abs(fds[0] - fds[1]) <= 1e-6 * (scale + np.abs(fds[1])) + 1e-9 * (1 + scale.max())
                 best = err.min(axis=0)
-                tol = 1e-5 * (scale + np.abs(jv)) + 1e-8 * (1 + scale.max())
+                # row-wise: relative to the row's own magnitude of contributions
+                # sum_j |J_ij v_j| (observed agreement on the unchanged tree: ~1e-10), plus a
+                # floor for the round-off of the difference quotient of that row
+                tol = 1e-6 * (scale + np.abs(jv)) + 1e-9 * (1 + np.abs(rhs)) + 1e-11 * scale.max()
                 bad = np.nonzero(consistent & (best > tol))[0]
                 dirs.append({
                     "rows": int(x.size),
